@@ -131,6 +131,25 @@ def handle (op : String) (fs : List (String × String)) : String :=
       let gs := specGroupsLen b   -- the independent decoder honours the length field
       lookups (findGroup gs) codes ++ (if sdFrom 0 gs then ";sd=1" else ";sd=0")
     | _, _ => "bad-case"
+  else if op == "cmapx.layout" then
+    -- property predicate for hand-laid-out tables: whatever the physical order, gaps or sharing, every
+    -- record decodes to the subtable it points to; a partial overlap of two subtables is refused
+    match (getField fs "recs"), (getField fs "subs"), (getField fs "overlap").bind String.toNat? with
+    | some recs, some subs, some overlap =>
+      if overlap > 0 then "err:malformed" else
+      match (subs.splitOn ";").mapM fromHex with
+      | none => "bad-case"
+      | some sl =>
+        let ents := (recs.splitOn ",").filterMap fun rc =>
+          match rc.splitOn ":" with
+          | [k, i] => do
+            let key ← parseKey k
+            let idx ← i.toNat?
+            let d ← sl[idx]?
+            pure (key, d)
+          | _ => none
+        "ok:" ++ showTab (sortTab ents)
+    | _, _, _ => "bad-case"
   else if op == "cmapx.big4" then
     -- property predicate "Format4.Encode refuses the map or an independent decoder reads it back": the
     -- harness evaluates it on the real code with its own specification lookup; the expected answer is "ok"
